@@ -22,7 +22,8 @@ Entry points with their defaults: `sysdef` = `ImmuneSystem()` (every component d
   `IntegratedCell.register_agent(a)` (the cell's `surveillance` being this system), `cexec a text|brk|none|empty|fail
   struct words len sdLen sdTime sdConf` = `IntegratedCell.execute(a, op, work)` with the wall clock frozen: a successful
   operation records `(str(output) if output else "", 0.0, tag.confidence = 1.0)`, a failing one records nothing.
-  `obs` / `canary` for an agent that was never registered raise ValueError.
+  `obs` / `canary` for an agent that was never registered raise ValueError.  `shadow`: an independent `ImmuneSystem()` and
+  stand-alone watcher / thymus come alive and confirm threats for the same agent ids and hashes (no shared state: no-op).
 Pipeline with the real display: `dreg a windowSize minObs`, `obs a text|brk|none|empty struct words len time conf err
   sdLen sdTime sdConf` (the three stdevs of the window after this observation), `canary a b`.
 -/
@@ -206,6 +207,7 @@ def step (st : DSt) (toks : List String) : DSt × String :=
   | "sys" :: mn :: tol :: vt :: stab :: cap :: rules =>
     ({ st with sys := Sys.init (intD mn) (ratOf tol) (ratOf vt) ⟨rules.map ruleOf, intD stab⟩ (intD cap),
                displays := [], regs := [], winSize := 100, minObs := 10 }, "ok")
+  | ["shadow"] => (st, "ok ## e:shadow")   -- other objects come alive and live their own history: nothing is shared
   | ["sysdef"] =>
     -- `ImmuneSystem()`: min_training_samples 10, Thymus(tolerance 2, variance_threshold 0.5), RegulatoryTCell(no rules,
     -- stability 100), ImmuneMemory(capacity 1000), window 100, min_observations 10
